@@ -46,8 +46,8 @@ def run_bin(name, scratch, args=(), stdin=None, timeout=120):
         pr = subprocess.run([p] + list(args), input=stdin, stdout=subprocess.PIPE, stderr=subprocess.PIPE, timeout=timeout)
     except subprocess.TimeoutExpired:
         return {'ran': True, 'fails': True, 'output': 'TIMEOUT after %ds (hang)' % timeout}
-    out = pr.stdout.decode('utf-8', 'replace')[-1500:]
-    return {'ran': True, 'fails': pr.returncode != 0, 'rc': pr.returncode, 'output': out, 'stderr': pr.stderr.decode('utf-8', 'replace')[-600:]}
+    full = pr.stdout.decode('utf-8', 'replace')
+    return {'ran': True, 'fails': pr.returncode != 0, 'rc': pr.returncode, 'output': full[-1500:], 'full_output': full[-2000000:], 'stderr': pr.stderr.decode('utf-8', 'replace')[-600:]}
 
 
 def run_witness(kf, scratch, root):
